@@ -249,16 +249,20 @@ def _decode_all(data):
         return "runaway"
 
 
+LAST_CRCS = []
+
+
 def _decode_all_unguarded(data):
     recs = _MemoryRecordsPy(bytes(data))
     out = []
     nb = 0
+    del LAST_CRCS[:]
     while recs.has_next():
         nb += 1
         if nb > 100:
             return "runaway"
         b = recs.next_batch()
-        b.validate_crc()
+        LAST_CRCS.append(bool(b.validate_crc()))
         n = 0
         for r in b:
             n += 1
@@ -303,6 +307,14 @@ def m1_mutations(src, which):
     except Exception as e:  # noqa: BLE001  concrete run: any ordinary exception is a clean failure
         outcome = "raises " + type(e).__name__
     src.note({"buffer": which, "mutation": desc, "outcome": outcome})
+    if outcome == "ok" and which.startswith("v2") and bytes(data) != bytes(BUFFERS[which]) and len(data) >= len(BUFFERS[which]):
+        # a v2 batch is checksummed from the attributes (byte 21) to its end and the stored CRC sits in bytes 17..20:
+        # if any of those bytes changed and decoding went through, the batch must have been reported invalid
+        orig = BUFFERS[which]
+        changed = [i for i in range(17, len(orig)) if data[i] != orig[i]]
+        if changed:
+            src.check(not all(LAST_CRCS) or not LAST_CRCS,
+                      f"a batch whose content no longer matches its checksum was reported valid ({which}: {desc})", changed_bytes=changed[:6])
     src.check(outcome != "runaway", f"decoding does not terminate ({which}: {desc})", buffer=which, mutation=desc)
     ok = not outcome.startswith("internal")
     if src.twin and kind == 0:
